@@ -978,6 +978,21 @@ impl Session {
         json!(out)
     }
 
+    /// Gives up on all caches without running their destructors (their
+    /// structure is corrupt) and reports what the registry recorded so far.
+    pub fn abandon(&mut self) -> Value {
+        let ids: Vec<u32> = self.caches.keys().cloned().collect();
+
+        for id in ids {
+            if let Some(cache) = self.caches.remove(&id) {
+                std::mem::forget(cache);
+            }
+        }
+
+        let anomalies = reg_anomalies_take();
+        json!({"live": 0, "anom": anomalies, "minted": reg_minted(), "abandoned": true})
+    }
+
     /// Drops all caches (end of a run) and reports what is left alive.
     pub fn finish(&mut self) -> Value {
         reg_window_start();
